@@ -167,7 +167,12 @@ def hydro_vars_for(ndim, kind="rvp"):
         return ([("density", "d")] + [(f"velocity_{c}", "d") for c in comps]
                 + [("velocity_divergence", "d"), ("position_tag", "d"), ("radiative_energy_fraction", "d"), ("radiative_energy_1", "d"), ("pressure", "d")])
     if kind == "odd":
-        return [("density", "d"), ("scalar_00", "d"), ("metallicity", "d"), ("thermal_pressure", "d"), ("internal_energy", "d")]
+        # ... and names that merely begin with, end with or contain a name the units library knows (a plain entry is an exact name, not
+        # a prefix), and names one of which is a prefix of another
+        return [("density", "d"), ("scalar_00", "d"), ("metallicity", "d"), ("thermal_pressure", "d"), ("internal_energy", "d"),
+                ("xHII", "d"), ("ye", "d"), ("zmetal", "d"), ("mass_fraction_CO", "d"), ("pressure_cr", "d"), ("temperature_dust", "d"),
+                ("energy_cr", "d"), ("time_since_sf", "d"), ("dx_min", "d"), ("density_dust", "d"), ("scalar_1", "d"), ("scalar_10", "d"),
+                ("sub_pressure", "d"), ("radiative_energy_1", "d"), ("radiative_energy_10", "d")]
     raise KeyError(kind)
 
 
@@ -618,7 +623,7 @@ def make_part(desc, counts, localseed=4, nstar_bytes=4):
     return {"desc": list(desc), "data": data, "localseed": localseed, "nstar_bytes": nstar_bytes, "counts": list(counts)}
 
 
-def make_sink(ndim, nrows, legacy=False, extra_cols=(), order="xyz"):
+def make_sink(ndim, nrows, legacy=False, extra_cols=(), order="xyz", extra_units=None):
     comps = "xyz"[:ndim]
     if order == "rev":
         comps = comps[::-1]
@@ -629,7 +634,7 @@ def make_sink(ndim, nrows, legacy=False, extra_cols=(), order="xyz"):
     if legacy:
         units = ["[1]", "[g]"] + ["[cm]"] * ndim + ["[cm/s]"] * ndim + ["[1]"] + ["[s]"] * len(extra_cols)
     else:
-        units = ["1", "m"] + ["l"] * ndim + ["l t**-1"] * ndim + ["1"] + ["m l**2 t**-1"] * len(extra_cols)
+        units = ["1", "m"] + ["l"] * ndim + ["l t**-1"] * ndim + ["1"] + (list(extra_units) if extra_units else ["m l**2 t**-1"] * len(extra_cols))
     rows = [[(r + 1) + 0.5 * j for j in range(len(keys))] for r in range(nrows)]
     for r in range(nrows):
         rows[r][0] = float(r + 1)
